@@ -30,6 +30,11 @@ def correspond(ctx):
     if rc != 0:
         c.mismatches.append({"kind": "harness-crash", "stderr": err[-1500:]})
         return c
+    # the groundwater-change block of the day loop (restore saved capacities, then set_fc_gw) on traced runs
+    trc, tcases, torc, terr = waterlib.run_trace(ctx)
+    glue = [x for x in tcases if x["k"] == "gwfc"]
+    c.dist["gwfc_day_loop"] = len(glue)
+    cases = cases + glue
     recs = ["(%s, %s, %s, %s)" % (waterlib.fl(x["in"]["grw"]), waterlib.fls(x["in"]["w"]), waterlib.fls(x["in"]["porges"]),
                                   waterlib.fls(x["out"])) for x in cases]
     items = []
@@ -60,8 +65,8 @@ def oracle(ctx, search):
     if trc != 0:
         fails.append(Fail(key="trace-crash", what="traced run aborted", stderr=terr[-800:]))
     rc1, cases1, orc1, other1, err1 = waterlib.run_harness(ctx, "c01", c01._args(ctx))
-    for l in orc + [t for t in torc + orc1 if t.startswith(("wg-", "state-not-finite", "fc-below-gw", "substep-"))]:
-        fails.append(Fail(key=re.sub(r"(value|wg|start|end|fc|limit|maxcaps|w|porges)=\S+", "", l)[:100].strip(), what=l))
+    for l in orc + [t for t in torc + orc1 if t.startswith(("wg-", "state-not-finite", "fc-below-gw", "fc-after-gw-change", "substep-"))]:
+        fails.append(Fail(key=re.sub(r"(value|wg|start|end|fc|limit|maxcaps|w|porges|soil-fc|pore-volume|wmin|soil-wmin|zeit|grw)=\S+", "", l)[:100].strip(), what=l))
     days = [x for x in tcases if x["k"] == "day"]
     ctx.extra["traced_days_checked_for_bounds_and_finiteness"] = len(days)
     return fails
